@@ -23,7 +23,7 @@ OUT = os.path.abspath(os.environ.get('FXSIM_OUT', HERE))
 TIERS = {
     # runs, determinism sample, wall-clock safety cap (s)
     'quick': {'runs': 24000, 'det': 160, 'cap': 900},
-    'thorough': {'runs': 2400000, 'det': 2000, 'cap': 6 * 3600},
+    'thorough': {'runs': 600000, 'det': 2000, 'cap': 6 * 3600},
 }
 PROPS = ('C02', 'C04', 'C10', 'C20')
 from .run import CHUNK      # noqa: E402  (the chunk size is part of what a run index means)
